@@ -302,12 +302,24 @@ def check_complex(ctx, case):
         ctx.nontrivial(('cplx', fmt, mode, elem, route, cont, tuple(vs)))
     ctx.sample(case, nontriv)
     sig = 'complex/%s/%s/%s' % (elem, cont, route)
-    if route == 'setitem':
-        # indexed / sliced assignment into an object that already holds complex values
+    if route == 'real-into-complex':
+        # one real value written by index into an object that holds complex values: the others stay complex
+        if len(vs) < 2:
+            return
+
+        def do_real():
+            F = C.Fxp()
+            tmpl = F(np.array([complex(float(a), float(b)) for a, b in vs]), s, w, f, rounding=mode[0], overflow=mode[1])
+            tmpl[0] = float(vs[0][0])
+            return tmpl, None
+        exp_im = [0] + exp_im[1:]
+        ok, res = ctx.guard(case, do_real, sig_prefix=sig + '/')
+    elif route in ('setitem', 'setitem-into-real'):
+        # indexed / sliced assignment into an object that already holds complex values, or that held reals so far
         def do_setitem():
             F = C.Fxp()
             n = len(vs)
-            tmpl = F(np.zeros(n + 1, dtype=complex), s, w, f, rounding=mode[0], overflow=mode[1])
+            tmpl = F(np.zeros(n + 1, dtype=complex if route == 'setitem' else float), s, w, f, rounding=mode[0], overflow=mode[1])
             if cont == 'scalar':
                 tmpl[1] = obj
             else:
@@ -498,7 +510,7 @@ def st_complex_case(draw):
     n = draw(st.integers(1, 4))
     x4s = [[C.clamp_sig_bits(draw(C.st_x4(fmt, limit_bits=max(lim, 2))), 53) for _ in range(2)] for _ in range(n)]
     return {'check': 'complex', 'fmt': list(fmt), 'mode': list(draw(C.st_modes())), 'elem': draw(st.sampled_from(CPLX_ELEMS)),
-            'route': draw(st.sampled_from(('ctor', 'call', 'set_val', 'setitem'))), 'cont': draw(st.sampled_from(('scalar', '1d', 'list'))),
+            'route': draw(st.sampled_from(('ctor', 'call', 'set_val', 'setitem', 'setitem-into-real', 'real-into-complex'))), 'cont': draw(st.sampled_from(('scalar', '1d', 'list'))),
             'x4s': x4s}
 
 
